@@ -5,13 +5,16 @@
          image description, see `parseImage`; <cov>: one digit per byte of the image:
          0 not covered by a checksum, 1 covered, 2 covered and an info-area length byte
     parse <vv> <kind> <hex>           -> ok <view> | <error tag>      Model.parseFru
-         vv = five flags (bcdBytesOnly, sixStrict, areaLenLax, devLenLax, picmgTypeOnly), kind = b | a | l
+         vv = eight flags (bcdBytesOnly, sixStrict, areaLenLax, devLenLax, picmgTypeOnly, fieldsLax, overlapLax,
+         devOverlapLax), kind = b | a | l
     dev <vv> <hex>                    -> ok <view> | <error tag>      Model.parseFruDevice (hex = device storage)
     tl <vv> <kind> <hex>              -> ok <field> | <error tag>     Model.tlString
     area <vv> <kind> <c|b|p> <hex>    -> ok <slot> | <error tag>      Model.parseArea
     mr <vv> <hex>                     -> ok <slot> | <error tag>      Model.parseMulti
     hdr <hex>                         -> ok <header> | <error tag>    Model.parseHeader
     sums <hex>                        -> 0 | 1                        Spec.checksumsOk
+    wf <hex>                          -> ok | sums | fields | layout  Spec.imageOk: the first of checksumsOk / fieldsOk /
+                                                                      layoutOk that fails
     date <minutes>                    -> y m d h mi                   Spec.dateOfMinutes
 -/
 import PyIpmi.Base.Proto
@@ -146,7 +149,7 @@ def covString (img : FruImage) (n : Nat) : String :=
 
 def parseVariant (s : String) : Option Variant :=
   match s.toList with
-  | [a, b, c, d, e] => some ⟨a == '1', b == '1', c == '1', d == '1', e == '1'⟩
+  | [a, b, c, d, e, f, g, h] => some ⟨a == '1', b == '1', c == '1', d == '1', e == '1', f == '1', g == '1', h == '1'⟩
   | _ => none
 
 def parseKind (s : String) : Option InputKind :=
@@ -193,6 +196,11 @@ def handleC15 (line : String) : String :=
   | ["sums", h] =>
     match ofHex h with
     | some bs => if checksumsOk bs then "1" else "0"
+    | none => "bad-op"
+  | ["wf", h] =>
+    match ofHex h with
+    | some bs =>
+      if !checksumsOk bs then "sums" else if !fieldsOk bs then "fields" else if !layoutOk bs then "layout" else "ok"
     | none => "bad-op"
   | ["date", m] =>
     match m.toNat? with
